@@ -24,7 +24,7 @@ def run(ctx):
         emitted = RO.check_clean_vector(ctx, RO_null(), v, "C07")
         n += RL.check_emitted_language(ctx, led, v, emitted)
         n += RL.check_builder_language(ctx, led, v)
-    led.require_min("C08.official", n, 12, "language inclusions decided")
+    led.require_min("C08.official", n, 8, "language inclusions decided")
 
 
 def RO_null():
